@@ -16,13 +16,23 @@ pub struct Case {
     pub src: Option<String>,
     /// generator tags, for the distribution statistics
     pub tags: Vec<&'static str>,
+    /// the case came from a source text: the model is asked to compile that text with its own
+    /// lexer, parser and macro expander and to evaluate its own tree (`run`), instead of being
+    /// handed the tree the real parser built — so that the comparison is end to end and a change
+    /// in the parser or in macro expansion that alters behaviour is seen by every evaluation check
+    pub from_source: bool,
 }
 
 impl Case {
     pub fn new(kind: &str, payload: String) -> Case {
-        Case { kind: kind.to_string(), payload, src: None, tags: vec![] }
+        Case { kind: kind.to_string(), payload, src: None, tags: vec![], from_source: false }
     }
     pub fn model_line(&self, id: usize) -> String {
+        if self.from_source && self.kind == "eval" {
+            if let (Some(src), Some(ctx)) = (&self.src, parse_all(&self.payload).first()) {
+                return format!("{} run {} {}", id, ctx.to_text(), crate::sx::hex(src.as_bytes()));
+            }
+        }
         format!("{} {} {}", id, self.kind, self.payload)
     }
     pub fn key(&self) -> String {
@@ -229,6 +239,38 @@ pub fn impl_answer(case: &Case) -> String {
                         Err(_) => "(err)".to_string(),
                     };
                     format!("(serde {vtxt} {jtxt} {stxt})")
+                }))
+            });
+            r.unwrap_or_else(|_| "(panic)".to_string())
+        }
+        "serdehr" => {
+            // host types from outside this framework whose `Serialize` impl consults
+            // `Serializer::is_human_readable()` (std's network addresses): conversion must still
+            // commute with serde_json, i.e. the serializer must present itself as human readable
+            let idx: usize = payload[0].as_atom().and_then(|a| a.parse().ok()).unwrap_or(0);
+            let r = quietly(|| {
+                catch_unwind(AssertUnwindSafe(|| {
+                    fn both<T: serde::Serialize>(x: &T) -> String {
+                        let direct = serde_json::to_value(x).ok();
+                        let via = cel_interpreter::to_value(x).ok().and_then(|v| v.json().ok());
+                        if direct.is_some() && direct == via {
+                            "(serdehr same)".to_string()
+                        } else {
+                            format!("(serdehr differs x{} x{})", crate::sx::hex(format!("{via:?}").as_bytes()), crate::sx::hex(format!("{direct:?}").as_bytes()))
+                        }
+                    }
+                    use std::net::{IpAddr, Ipv4Addr, Ipv6Addr, SocketAddr};
+                    match idx {
+                        0 => both(&Ipv4Addr::new(192, 168, 0, 10)),
+                        1 => both(&Ipv6Addr::LOCALHOST),
+                        2 => both(&IpAddr::V4(Ipv4Addr::new(10, 0, 0, 1))),
+                        3 => both(&IpAddr::V6(Ipv6Addr::new(0x2001, 0xdb8, 0, 0, 0, 0, 0, 1))),
+                        4 => both(&SocketAddr::from(([127, 0, 0, 1], 8080))),
+                        5 => both(&vec![IpAddr::V4(Ipv4Addr::UNSPECIFIED), IpAddr::V6(Ipv6Addr::UNSPECIFIED)]),
+                        6 => both(&std::collections::BTreeMap::from([("a".to_string(), Ipv4Addr::BROADCAST)])),
+                        7 => both(&Some(SocketAddr::from((Ipv6Addr::LOCALHOST, 443)))),
+                        _ => both(&(IpAddr::V4(Ipv4Addr::new(192, 168, 0, 10)), vec![SocketAddr::from(([10, 1, 2, 3], 1))], "n".to_string())),
+                    }
                 }))
             });
             r.unwrap_or_else(|_| "(panic)".to_string())
@@ -447,6 +489,7 @@ pub fn eval_case_from_src(spec: &CtxSpec, src: &str) -> Option<Case> {
     let ast = quietly(|| catch_unwind(|| cel_parser::Parser::new().parse(src))).ok()?.ok()?;
     let mut c = Case::new("eval", format!("{} {}", spec.to_sx().to_text(), expr_to_sx(&ast).to_text()));
     c.src = Some(src.to_string());
+    c.from_source = true;
     Some(c)
 }
 
